@@ -176,7 +176,7 @@ Loop ==
 \* (Proc takes the head of the batch; the trace specification may take any event of the
 \* batch whose (timestamp, precedence) key is minimal - the code leaves that order free.)
 ProcE(e, rest) ==
-    /\ batch' = rest /\ pc' = "Proc"
+    /\ batch' = rest
     /\ evHist' = Append(evHist, [kind |-> e.kind, ts |-> e.ts, id |-> e.id, at |-> t])
     /\ resolve' = TRUE
     /\ CASE e.kind = "Plugin" ->
@@ -205,7 +205,7 @@ ProcEnd ==      \* the period's events are done: go on to the recompute test
 
 Proc ==
     \/ ProcEnd
-    \/ /\ pc = "Proc" /\ batch # <<>>
+    \/ /\ pc = "Proc" /\ batch # <<>> /\ pc' = "Proc"
        /\ ProcE(Head(batch), Tail(batch))
        /\ UNCHANGED ProcRest
 
@@ -271,8 +271,10 @@ DumpLoad ==
 
 \* _update_schedules(new_schedule)
 
-Update ==
-    /\ pc = "Update" /\ Good(sigma)
+\* UpdateAt(here, next): the schedule bookkeeping, entered at pc = here and left at pc = next
+\* (run(): Update == UpdateAt("Update", "Apply"); step() has its own pc values, see AcnSimStep.tla).
+UpdateAt(here, next) ==
+    /\ pc = here /\ Good(sigma)
     /\ LET m == sigma  R == Sched(m).rows  L == SLen(m) IN
        /\ IF DOMAIN R = {}
           THEN UNCHANGED <<pilots, subs>>
@@ -284,11 +286,13 @@ Update ==
                                    ELSE pilots[s][k]]]
                /\ subs' = Append(subs, <<t, m>>)
        /\ schedHist' = Append(schedHist, <<t, m>>)
-       /\ lastUpd' = t /\ resolve' = FALSE /\ pc' = "Apply"
+       /\ lastUpd' = t /\ resolve' = FALSE /\ pc' = next
        /\ invLog' = Append(invLog, t)
        /\ hist' = Log([a |-> "update", t |-> t, m |-> m, pilots |-> pilots'])
     /\ UNCHANGED <<sess, recomp, MR, queue, t, batch, occ, evsePilot, dE, evE, chg, lastE, peakN,
                    evHist, seen, sigma, snap, ncrash, resumed>>
+
+Update == UpdateAt("Update", "Apply")
 
 \* A schedule naming an unknown station or with rows of unequal length: the
 \* exception leaves run(); nothing has changed.
@@ -302,11 +306,11 @@ Reject ==
 \* _store_actual_charging_rates(); post_charging_update(); iteration += 1
 AggN(E) == SumSet([s \in Stations |-> E[s] * (VL \div Volt[s])], Stations)
 
-\* ApplyWith(E): the period is applied and station s delivers energy E[s].  Apply uses the
+\* ApplyAt(E, here, next) / ApplyWith(E): the period is applied and station s delivers energy E[s].  Apply uses the
 \* ideal battery law; the trace specification also admits any E inside the physical
 \* envelope (two-stage batteries, noise) - see Envelope.
-ApplyWith(E) ==
-    /\ pc = "Apply"
+ApplyAt(E, here, next) ==
+    /\ pc = here
     /\ LET P == [s \in Stations |-> pilots[s][t + 1]]
            occd == {occ[s] : s \in Stations} \ {0}
            stOf == [i \in occd |-> CHOOSE s \in Stations : occ[s] = i]
@@ -318,9 +322,11 @@ ApplyWith(E) ==
           /\ peakN' = Max2(peakN, AggN(E))
           /\ hist' = Log([a |-> "apply", t |-> t, P |-> P, E |-> E, occ |-> occ,
                           evE |-> evE', chg |-> chg', peakN |-> peakN'])
-    /\ t' = t + 1 /\ pc' = "Loop"
+    /\ t' = t + 1 /\ pc' = next
     /\ UNCHANGED <<sess, recomp, MR, queue, resolve, lastUpd, batch, occ, pilots, evHist, seen,
                    schedHist, sigma, ghost>>
+
+ApplyWith(E) == ApplyAt(E, "Apply", "Loop")
 
 IdealE == [s \in Stations |-> IF occ[s] = 0 THEN 0 ELSE Charge(occ[s], pilots[s][t + 1], s)]
 
@@ -366,7 +372,8 @@ N == Len(sess)
 
 TypeOK ==
     /\ pc \in {"Setup", "Loop", "Proc", "Decide", "Sched", "Update", "Apply", "Stopped",
-               "Done", "Emitted"}
+               "Done", "Emitted",
+               "SIdle", "SLoop", "SUpdate", "SApply", "SEvents", "SProc"}    \* step(), AcnSimStep.tla
     /\ t \in 0..(H+1) /\ lastUpd \in -1..(H+1)
     /\ \A s \in Stations : occ[s] \in 0..N
 
